@@ -120,6 +120,7 @@ class Batch:
         self.bin, self.engine, self.prop, self.seed, self.workers = binpath, engine, prop, seed, workers
         self.viol, self.summaries, self.per_run, self.restarts, self.sigs = [], [], {}, 0, set()
         self.unsupported = False
+        self.sites = set()
         self.lock = threading.Lock()
 
     def _worker(self, w, start, stride, count, seconds, per_run, extra):
@@ -129,6 +130,8 @@ class Batch:
         while remaining > 0:
             cmd = [self.bin, "batch", "--prop", self.prop, "--seed", str(self.seed), "--start", str(cur), "--stride", str(stride),
                    "--count", str(remaining), "--sigs", sigfile, "--max-report", "40"] + extra
+            if self.engine == "simA":
+                cmd += ["--sites", sigfile + ".sites"]
             if seconds:
                 left = max(1.0, seconds - (time.time() - self.t0))
                 cmd += ["--max-seconds", "%.1f" % left]
@@ -151,6 +154,10 @@ class Batch:
                     data = open(sigfile, "rb").read(); os.unlink(sigfile)
                     for k in range(0, len(data) - 7, 8):
                         self.sigs.add(data[k:k + 8])
+                if os.path.exists(sigfile + ".sites"):
+                    data = open(sigfile + ".sites", "rb").read(); os.unlink(sigfile + ".sites")
+                    for k in range(0, len(data) - 7, 8):
+                        self.sites.add(data[k:k + 8])
             if p.returncode == 0:
                 break
             if p.returncode == 4:
@@ -220,6 +227,8 @@ class Batch:
             tot["overlap_dim"] = dim; tot["op_kinds"] = nk
             tot["overlap_pairs_set"] = sorted(pairs)
         tot["distinct_nontrivial"] = len(self.sigs)
+        if self.sites:
+            tot["distinct_sites"] = len(self.sites)
         return tot
 
 def load_known():
@@ -423,6 +432,7 @@ def check_engine_a(prop, tier, seed):
         "faults_fired": tot.get("faults", {}), "library_allocations_observed": tot.get("sut_allocs", 0),
         "exceptions_seen": tot.get("exceptions", {}),
         "rare_condition_probes": {k: v for k, v in tot.get("probes", {}).items()},
+        "distinct_sites_reached": {"count": len(set().union(*[getattr(b, "sites", set()) for _, b in batches])), "measure": "distinct (operation kind, overload/element type, storage class of every operand, input validity) tuples executed at least once"},
         "engine_counters": {k: v for k, v in tot.items() if k in ("pairs", "calls", "rejected_by_format", "per_sink", "nontrivial_runs", "events", "accesses_checked", "strategies", "sync_operations_modelled", "unsupported_primitive_runs")},
         "determinism": {"indices_run_twice": det_n, "worker_counts": [4, NCPU], "mismatches": len(det_bad)},
         "components_real": ENGINE_PARTS[cfg["engine"]][0], "components_simulated": ENGINE_PARTS[cfg["engine"]][1],
